@@ -1079,10 +1079,7 @@ class Pregex():
         pre = __class__._to_pregex(pre)
         if pre._get_type() == _Type.Empty:
             return self
-        if _re.search(_re.sub(r"\s", "", r"""
-            (?<!\\)(?:\\\\)*(?<!\()(?:\?|\*|\+|\{,\d+\}|\{\d+,\}|\{\d+,\d+\})|
-            (?<!\\)(?:\\\\)*\\\((?:\?|\*|\+|\{,\d+\}|\{\d+,\}|\{\d+,\d+\})
-        """), str(pre)) is not None:
+        if not __class__.__is_fixed_width(pre):
             raise _ex.NonFixedWidthPatternException(pre)
         return __class__(
             f"(?<={pre}){self._assert_conditional_group()}",
@@ -1110,10 +1107,7 @@ class Pregex():
         pre = __class__._to_pregex(pre)
         if pre._get_type() == _Type.Empty:
             return self
-        if _re.search(_re.sub(r"\s", "", r"""
-            (?<!\\)(?:\\\\)*(?<!\()(?:\?|\*|\+|\{,\d+\}|\{\d+,\}|\{\d+,\d+\})|
-            (?<!\\)(?:\\\\)*\\\((?:\?|\*|\+|\{,\d+\}|\{\d+,\}|\{\d+,\d+\})
-        """), str(pre)) is not None:
+        if not __class__.__is_fixed_width(pre):
             raise _ex.NonFixedWidthPatternException(pre)
         return __class__(
             f"(?<={pre}){self._assert_conditional_group()}(?={pre})",
@@ -1160,10 +1154,7 @@ class Pregex():
         pre = __class__._to_pregex(pre)
         if pre._get_type() == _Type.Empty:
             raise _ex.EmptyNegativeAssertionException()
-        if _re.search(_re.sub(r"\s", "", r"""
-            (?<!\\)(?:\\\\)*(?<!\()(?:\?|\*|\+|\{,\d+\}|\{\d+,\}|\{\d+,\d+\})|
-            (?<!\\)(?:\\\\)*\\\((?:\?|\*|\+|\{,\d+\}|\{\d+,\}|\{\d+,\d+\})
-        """), str(pre)) is not None:
+        if not __class__.__is_fixed_width(pre):
             raise _ex.NonFixedWidthPatternException(pre)
         pattern = f"(?<!{pre}){self._assert_conditional_group()}"
         return __class__(pattern, escape=False)
@@ -1189,10 +1180,7 @@ class Pregex():
         pre = __class__._to_pregex(pre)
         if pre._get_type() == _Type.Empty:
             raise _ex.EmptyNegativeAssertionException()
-        if _re.search(_re.sub(r"\s", "", r"""
-            (?<!\\)(?:\\\\)*(?<!\()(?:\?|\*|\+|\{,\d+\}|\{\d+,\}|\{\d+,\d+\})|
-            (?<!\\)(?:\\\\)*\\\((?:\?|\*|\+|\{,\d+\}|\{\d+,\}|\{\d+,\d+\})
-        """), str(pre)) is not None:
+        if not __class__.__is_fixed_width(pre):
             raise _ex.NonFixedWidthPatternException(pre)
         pattern = f"(?<!{pre}){self._assert_conditional_group()}(?!{pre})"
         return __class__(pattern, escape=False)
@@ -1392,6 +1380,21 @@ class Pregex():
             source = self.__extract_text(source)
         return _re.finditer(self.__pattern, source, flags=self.__flags) \
             if self.__compiled is None else self.__compiled.finditer(source)
+
+
+    @staticmethod
+    def __is_fixed_width(pre: 'Pregex') -> bool:
+        '''
+        Returns ``True`` if the provided pattern can be used within a lookbehind \
+        assertion, that is, if every string that it matches has the same length.
+
+        :param Pregex pre: The pattern that is to be examined.
+        '''
+        try:
+            _re.compile(f"(?<={pre})", flags=__class__.__flags)
+        except _re.error as e:
+            return "fixed-width" not in str(e)
+        return True
 
 
     @staticmethod
